@@ -431,6 +431,7 @@ func TestVerifC13Decode(t *testing.T) {
 
 	dValidateStream(out, r, all)
 	dMismatch(out, r, all)
+	dWhole(out, r)
 	dFaithful(t, out, r, all)
 }
 
